@@ -17,6 +17,19 @@ import rattr.__main__ as M  # noqa: E402
 from rattr.config import Config  # noqa: E402
 from rattr.config._types import ConfigMetaclass  # noqa: E402
 
+# C19: a different rattr version / user plugin set, arranged from outside (nothing in /repo changes)
+if os.environ.get("RATTR_VERIF_FAKE_VERSION"):
+    import rattr.models.results.util as _U
+    _U.version = os.environ["RATTR_VERIF_FAKE_VERSION"]
+if os.environ.get("RATTR_VERIF_EXTRA_PLUGIN"):
+    import importlib.util as _ilu
+    from rattr.plugins import register_rattr_plugins as _reg
+    _spec = _ilu.spec_from_file_location("rattr_verif_extra_plugin", os.environ["RATTR_VERIF_EXTRA_PLUGIN"])
+    _mod = _ilu.module_from_spec(_spec)
+    sys.modules["rattr_verif_extra_plugin"] = _mod
+    _spec.loader.exec_module(_mod)
+    _reg(analysers=_mod.ANALYSERS)
+
 events = []
 phase = ["pre"]
 
